@@ -163,7 +163,16 @@ where
     let mut pt = ScalarZnx::alloc(n, 1);
     pt.at_mut(0, 0).copy_from_slice(m2);
     let mut g = GGSW::alloc_from_infos(&lay);
-    m.ggsw_encrypt_sk(&mut g, &pt, &skp, &enc, &mut Source::new(seed32(c.seed, 0xE5 + salt)), &mut Source::new(seed32(c.seed, 0xA5 + salt)), scratch.borrow());
+    if (c.seed >> 5) & 1 == 1 {
+        // the seed-compressed routine followed by decompression: same cells, same gadget rows
+        use poulpy_core::GGSWCompressedEncryptSk;
+        use poulpy_core::layouts::compressed::{GGSWCompressed, GGSWDecompress};
+        let mut gc = GGSWCompressed::alloc_from_infos(&lay);
+        m.ggsw_compressed_encrypt_sk(&mut gc, &pt, &skp, seed32(c.seed, 0xA5 + salt), &enc, &mut Source::new(seed32(c.seed, 0xE5 + salt)), scratch.borrow());
+        m.decompress_ggsw(&mut g, &gc);
+    } else {
+        m.ggsw_encrypt_sk(&mut g, &pt, &skp, &enc, &mut Source::new(seed32(c.seed, 0xE5 + salt)), &mut Source::new(seed32(c.seed, 0xA5 + salt)), scratch.borrow());
+    }
     let s = glwe_secret_coeffs(sk);
     let cells = ggsw_cells(&g, c.dnum as usize, r + 1);
     let meta = key_meta(&cells, c.kb as usize, c.dnum as usize, c.dsize as usize, r + 1, r, &s, &ggsw_pts(m2, &s), &ni)?;
